@@ -44,7 +44,56 @@ def tasks(tier, seed):
     t = [(MOD, "hyp", (n // shards, seed * 1_000_003 + i, tier)) for i in range(shards)]
     t.append((MOD, "fixed", ()))
     t += [(MOD, "adjacent", (i, 16, tier)) for i in range(16)]
+    t += [(MOD, "cellpairs", (i, 16, tier)) for i in range(16)]
     return t
+
+
+CELL_PTS = {"quick": [["1", "2", "3"]], "thorough": [["1", "2", "3"], ["1.0", "1.5", "2"], ["0.9", "1", "1!0"]]}
+
+
+def mask_text(mask: int, pts) -> str:
+    """PEP 440 text of a cell set over the sorted points pts (cell 2i+1 = the point pts[i], even cells = the gaps)."""
+    n = 2 * len(pts) + 1
+    if mask == 0:
+        return "<empty>"
+    if mask == (1 << n) - 1:
+        return ""
+    parts, i = [], 0
+    while i < n:
+        if not mask >> i & 1:
+            i += 1
+            continue
+        j = i
+        while j + 1 < n and mask >> (j + 1) & 1:
+            j += 1
+        if i == j and i % 2:
+            parts.append(f"=={pts[i // 2]}")
+        else:
+            lo = "" if i == 0 else (f">={pts[i // 2]}" if i % 2 else f">{pts[i // 2 - 1]}")
+            hi = "" if j == n - 1 else (f"<={pts[j // 2]}" if j % 2 else f"<{pts[j // 2]}")
+            parts.append(",".join(x for x in (lo, hi) if x))
+        i = j + 1
+    return "||".join(parts)
+
+
+def cellpairs(acc, shard, nshards, tier):
+    """Exhaustive: every ordered pair of sets over three bounds (as texts), combined and then complemented or
+    intersected once more - touching / nested / crossed bound coincidences between two unions, followed by a
+    second operation (a result that is merely mis-shapen only shows in the next step)."""
+    acc.exhaustive_layers.add("L1-cell-pair-trees")
+    mod = sys.modules[MOD]
+    for pts in CELL_PTS[tier]:
+        n = 2 * len(pts) + 1
+        texts = [mask_text(m, pts) for m in range(1 << n)]
+        k = 0
+        for ma in range(1, (1 << n) - 1):
+            for mb in range(1, (1 << n) - 1):
+                k += 1
+                if k % nshards != shard:
+                    continue
+                a, b = ["leaf", texts[ma]], ["leaf", texts[mb]]
+                for tree in (["not", ["or", a, b]], ["not", ["and", a, b]], ["and", ["or", a, b], ["leaf", f"=={pts[1]}"]]):
+                    harness.process(mod, acc, "tree", {"tree": tree}, "L1-cell-pair-trees", isolate=False)
 
 
 def adjacent(acc, shard, nshards, tier):
